@@ -14,6 +14,7 @@ from ..gen import mesh as G
 from ..gen import c18gen as GG
 from ..gen import c18translate as TR
 from ..gen import c18vtranslate as TRV
+from ..gen import c18htranslate as TRH
 
 PID = "C18"
 TITLE = "Surface frame fields are unit, border-aligned and topologically consistent"
@@ -36,6 +37,11 @@ REQUIRED_THEOREMS = [
     "bridge_vertex_init", "bridge_connection_formulas", "bridge_vertex_thresholds",
     "connection_interior_rescale", "connection_feature_ring_closes_on_quantum", "connection_face_transports_opposite",
     "laplacian_vertex_phases_sum", "laplacian_faces_phase", "laplacian_phase_is_order_times_curv_term",
+    # round 3: histories on one object / mesh, face-based matching, attach weight
+    "run_idempotent", "run_on_fresh", "run_after_initialize_faces", "run_after_initialize_vertices", "run_after_initialize_needs_flag",
+    "flag_attributes_independent_of_history", "flag_twice_eq_once", "stale_flag_survives_without_clear",
+    "fixed_flags_independent_of_history", "stale_fixed_flag_survives_without_clear",
+    "bridge_face_candidates", "bridge_attach_weight", "attach_weight_positive", "alpha_positive",
 ]
 TRUSTED = [
     "Lean 4.33.0 kernel; axioms ⊆ {propext, Classical.choice, Quot.sound}",
@@ -58,6 +64,9 @@ TRUSTED = [
     "floating point (T6): sqrt / atan2 / phase / cos / sin are evaluated by the implementation and the harness only",
 ]
 ASSUMPTIONS = [
+    "history clauses (round 3): a second run() / flag_singularities() on the same object, a field computed on a mesh that already carried "
+    "another field, an equivalent custom feature detector and integer / float32 coordinates are compared BY VALUE with the fresh float64 run "
+    "(1e-8; 1e-3 for float32, whose geometric tolerances are widened to single precision); with n_smooth > 0 both runs use a prescribed attach weight",
     "partial: harmonic-extension, numbering-independence and index-sum = scale*chi clauses are established on the inputs of this run only",
     "cad_correction (OSQP-modified transport) and singularity_indices (trivial connection classes) are outside the quantifier and not exercised",
 ]
@@ -65,7 +74,10 @@ RULE = ("triangulated oriented manifold surfaces from 14 families (height-field 
         "jittered and symmetric spheres, tori, folded grids and cubes/open boxes with sharp creases, strips, 1-2 triangle meshes), random face "
         "rotation / order / vertex numbering; x orders 1-6 x {faces, vertices} x features on/off x n_smooth in {0,1,3} x cotan/uniform; "
         "bordered cases are re-run on a renumbered + face-rotated copy (metamorphic). Non-trivial = the field was computed by a solver "
-        "(linear solve with >= 1 free element, or eigen-solve) and, for faces, singularities were flagged.")
+        "(linear solve with >= 1 free element, or eigen-solve) and, for faces, singularities were flagged. Round 3 adds history families "
+        "(run() twice + flag twice; initialize() then the callable; two fields of different order / element / features one after the other on "
+        "ONE mesh (systematically: features on then off and off then on across a sharp crease, order 4 then 6, both elements, optionally re-using the first field's detector or passing two explicit detectors); another complete field on ANOTHER mesh between construction and run of the field under test (state shared between instances); an explicitly passed equivalent FeatureEdgeDetector) and representation "
+        "families (integer-coordinate grids handed in as int64 arrays, Vec of python ints, int lists, float32 arrays), n_smooth in {0,1,3,10}.")
 
 TWO_PI = 2 * math.pi
 _CACHE = {}
@@ -74,7 +86,7 @@ _CONST = {}
 
 def _consts():
     """(ZERO_THRESHOLD, A of angle*A/pi) as the source states them now (fallback: the values of the pinned tree)"""
-    if not _CONST:
+    if "thr" not in _CONST:
         try:
             thr, a, plus = TR.face_flag_constants()
             _CONST.update(thr=float(thr), a=float(a))
@@ -100,13 +112,13 @@ def _config(rng, fam, st):
     order = rng.choice([1, 2, 3, 4, 4, 5, 6])
     creased = fam in ("fold", "cube", "box", "cube-sym")
     features = (rng.random() < 0.75) if creased else (rng.random() < 0.3)
-    ns = rng.choice([0, 0, 0, 1, 3])
+    ns = rng.choice([0, 0, 0, 0, 1, 1, 3, 3, 10])
     cotan = rng.random() < 0.65
     return {"elem": elem, "order": order, "features": features, "n_smooth": ns, "cotan": cotan, "seed": rng.randrange(1000)}
 
 
 def cases(rng, tier):
-    nsurf, ncfg, big = (45, 8, False) if tier == "quick" else (150, 16, True)
+    nsurf, ncfg, big = (35, 8, False) if tier == "quick" else (150, 16, True)
     fams = GG.families(tier)
     for k in range(nsurf):
         fam = fams[k % len(fams)] if k < 2 * len(fams) else rng.choice(fams)
@@ -119,6 +131,55 @@ def cases(rng, tier):
                 V2, F2, vperm, fperm = GG.metamorphic(rng, V, F)
                 case["meta"] = {"vperm": vperm, "fperm": fperm, "F2": F2}
             yield case
+    # ---- round 3: histories on one object / one mesh, input representations, custom feature detectors
+    nh = 30 if tier == "quick" else 130
+    kinds = ["two-fields", "repr", "rerun", "two-fields", "call", "interleaved", "two-fields", "custom-features", "two-fields", "repr"]
+    for k in range(nh):
+        kind = kinds[k % len(kinds)]
+        creased = False
+        if kind == "repr":
+            V, F, st = _int_surface(rng)
+            fam = "intgrid"
+        else:
+            fam = rng.choice(["fold", "box", "cube"]) if (kind == "two-fields" and k % 2 == 0) else \
+                rng.choice(["grid", "fold", "box", "annulus", "holes", "sphere", "cube", "delaunay"])
+            creased = fam in ("fold", "box", "cube")
+            V, F, st = GG.make_surface(rng, fam, big=False)
+        cfg = _config(rng, fam, st)
+        cfg["n_smooth"] = rng.choice([0, 0, 0, 1, 3])
+        case = {"V": V, "F": F, "fam": fam, **cfg}
+        if kind == "repr":
+            nrep = sum(1 for q in range(k) if kinds[q % len(kinds)] == "repr")
+            case["elem"] = ["faces", "vertices"][nrep % 2]
+            case["build"] = ["int64", "pyint", "f32", "intlists", "pyint", "int64"][nrep % 6]
+            case["hist"] = {"kind": "repr"}
+        elif kind == "two-fields":
+            first = _config(rng, fam, st)
+            first["n_smooth"] = rng.choice([0, 1])
+            first["elem"] = cfg["elem"] if rng.random() < 0.75 else first["elem"]
+            if creased:
+                # the constrained set of the first field is larger / smaller / equal: attributes it leaves on the mesh must not leak
+                ncre = k // 2
+                ff_, cf_ = [(True, False), (False, True), (True, False), (True, True)][ncre % 4]
+                first["features"], case["features"] = ff_, cf_
+                case["elem"] = first["elem"] = ["faces", "vertices", "faces"][(ncre // 2) % 3] if ncre % 4 != 3 else case["elem"]
+                if ncre % 4 == 0:
+                    first["order"], case["order"] = 4, 6
+            if first["order"] == case["order"] and first["features"] == case["features"]:
+                first["order"] = case["order"] % 6 + 1
+            case["hist"] = {"kind": "two-fields", "first": first,
+                            "reuse_detector": bool(case["features"] == first["features"] and rng.random() < 0.4),
+                            "custom_both": bool(k % 3 == 0)}
+        elif kind == "interleaved":
+            fam2 = rng.choice(["grid", "fold", "sphere", "annulus"])
+            V2, F2, st2 = GG.make_surface(rng, fam2, big=False)
+            other = _config(rng, fam2, st2); other["n_smooth"] = rng.choice([0, 1])
+            if rng.random() < 0.7: other["elem"] = case["elem"]
+            case["hist"] = {"kind": "interleaved", "other": dict(other, V=V2, F=F2, fam=fam2)}
+        else:
+            if creased and rng.random() < 0.6: case["features"] = True
+            case["hist"] = {"kind": kind}
+        yield case
     if tier == "thorough":
         # all option combinations on a few fixed small surfaces
         for fam in ["grid", "fold", "annulus", "sphere", "torus", "box"]:
@@ -130,6 +191,32 @@ def cases(rng, tier):
                             for cotan in [True, False]:
                                 yield {"V": V, "F": F, "fam": fam, "elem": elem, "order": order, "features": features,
                                        "n_smooth": ns, "cotan": cotan, "seed": 1}
+
+
+def _int_surface(rng):
+    """a triangulated height-field grid whose coordinates are (small) INTEGERS, non-degenerate (every triangle has
+    area >= 4 and no angle below ~15 degrees: checked, the draw is repeated otherwise)"""
+    while True:
+        nu, nv = rng.randint(3, 5), rng.randint(3, 5)
+        V = [[4 * i + rng.randint(-1, 1), 4 * j + rng.randint(-1, 1), rng.randint(-1, 1)] for i in range(nu) for j in range(nv)]
+        F = []
+        for i in range(nu - 1):
+            for j in range(nv - 1):
+                a, b, c, d = i * nv + j, (i + 1) * nv + j, (i + 1) * nv + j + 1, i * nv + j + 1
+                F += [[a, b, c], [a, c, d]] if rng.random() < 0.5 else [[a, b, d], [b, c, d]]
+        ok = True
+        for f in F:
+            p = [V[t] for t in f]
+            for k in range(3):
+                u = [p[(k + 1) % 3][t] - p[k][t] for t in range(3)]; w = [p[(k + 2) % 3][t] - p[k][t] for t in range(3)]
+                cr = [u[1] * w[2] - u[2] * w[1], u[2] * w[0] - u[0] * w[2], u[0] * w[1] - u[1] * w[0]]
+                c2 = sum(x * x for x in cr); uu = sum(x * x for x in u); ww = sum(x * x for x in w)
+                if c2 < 64 or c2 < 0.067 * uu * ww: ok = False       # area < 4 or sin^2(angle) < 0.067
+        if ok: break
+    F = G.rotate_faces(rng, F); F = G.shuffle_faces(rng, F)
+    V = [[float(c) for c in v] for v in V]
+    st = G.surface_stats(len(V), F)
+    return V, F, st
 
 
 def search_on_break(rng, broken, mismatches):
@@ -144,6 +231,20 @@ def search_on_break(rng, broken, mismatches):
                     V2, F2, vperm, fperm = GG.metamorphic(rng, V, F)
                     case["meta"] = {"vperm": vperm, "fperm": fperm, "F2": F2}
                 yield case
+    for fam in ["fold", "box", "grid", "sphere"]:
+        V, F, st = GG.make_surface(rng, fam)
+        for elem in ["faces", "vertices"]:
+            for o1, o2 in ((4, 2), (2, 3), (6, 4)):
+                base = {"V": V, "F": F, "fam": fam, "elem": elem, "order": o2, "features": fam in ("fold", "box"), "n_smooth": 0, "cotan": True, "seed": 5}
+                yield dict(base, hist={"kind": "two-fields", "reuse_detector": False,
+                                       "first": {"elem": elem, "order": o1, "features": fam in ("fold", "box"), "n_smooth": 0, "cotan": True, "seed": 5}})
+                yield dict(base, hist={"kind": "rerun"})
+                yield dict(base, hist={"kind": "call"})
+    for _ in range(6):
+        V, F, st = _int_surface(rng)
+        for b in ("int64", "pyint", "f32"):
+            yield {"V": V, "F": F, "fam": "intgrid", "elem": rng.choice(["faces", "vertices"]), "order": rng.choice([2, 3, 4]), "features": False,
+                   "n_smooth": 0, "cotan": True, "seed": 5, "build": b, "hist": {"kind": "repr"}}
 
 
 # ------------------------------------------------------------------------------------------------
@@ -157,23 +258,40 @@ def _exc_name(e):
     return type(e).__name__
 
 
-def _build(V, F):
-    return G.build_surface({"V": V, "F": F})
+def _build(V, F, kind=None):
+    """the surface as a mouette SurfaceMesh; `kind` selects the representation of the SAME coordinates handed to the library"""
+    if kind is None:
+        return G.build_surface({"V": V, "F": F})
+    import numpy as np, mouette as M
+    if kind == "int64":
+        return M.mesh.from_arrays(np.array([[int(c) for c in v] for v in V], dtype=np.int64), F=np.array(F, dtype=np.int64))
+    if kind == "f32":
+        return M.mesh.from_arrays(np.array(V, dtype=np.float32), F=np.array(F, dtype=np.int32))
+    d = M.mesh.RawMeshData()
+    if kind == "pyint":
+        d.vertices += [M.Vec(*[int(c) for c in v]) for v in V]
+        d.faces += [list(f) for f in F]
+    elif kind == "intlists":
+        d.vertices += [[int(c) for c in v] for v in V]
+        d.faces += [tuple(f) for f in F]
+    else:
+        raise ValueError(kind)
+    return M.mesh.SurfaceMesh(d)
 
 
-def _make_ff(m, case, alpha=None):
+def _make_ff(m, case, alpha=None, detector=None):
     from mouette import framefield as ff
     return ff.SurfaceFrameField(m, case["elem"], order=case["order"], features=case["features"], verbose=False,
                                 n_smooth=case["n_smooth"], use_cotan=case["cotan"], cad_correction=False,
-                                smooth_attach_weight=alpha)
+                                smooth_attach_weight=alpha, custom_features=detector)
 
 
-def _run_once(case, V, F, want_sing=True, alpha=None):
+def _run_once(case, V, F, want_sing=True, alpha=None, mesh=None, detector=None, build="case", via_call=False, twice=False, between=None):
     import numpy as np
     r = Run()
     r.err = None
     r.V, r.F = V, F
-    r.m = _build(V, F)
+    r.m = mesh if mesh is not None else _build(V, F, case.get("build") if build == "case" else build)
     np.random.seed(case["seed"])
     # the attach weight is estimated with ARPACK (eigsh, tol=1e-3) from an unseeded random start vector: inject the
     # randomness from the case seed so that a run (and a replay) is reproducible
@@ -188,7 +306,10 @@ def _run_once(case, V, F, want_sing=True, alpha=None):
     r.captured = []
     stage = "construct"
     try:
-        r.f = f = _make_ff(r.m, case, alpha)
+        r.f = f = _make_ff(r.m, case, alpha, detector)
+        if between is not None:
+            between()                # something else happens between construction and use (another field on another mesh)
+            np.random.seed(case["seed"])   # numpy's global generator is shared by design: the harness re-injects this case's randomness
         stage = "initialize"
         f.initialize()
         r.var_init = np.array(f.var, dtype=complex).copy()
@@ -199,13 +320,23 @@ def _run_once(case, V, F, want_sing=True, alpha=None):
             orig()
         f.normalize = norm
         stage = "optimize"
-        f.optimize()
-        f.smoothed = True
+        if via_call:
+            f()                      # Worker.__call__ -> run(): initialize() was already called, so only optimize() must happen
+        else:
+            f.optimize()
+            f.smoothed = True
         f.normalize = orig
         r.var = np.array(f.var, dtype=complex).copy()
+        if twice:
+            stage = "run (second time)"
+            f.run()
+            r.var_second = np.array(f.var, dtype=complex).copy()
         if want_sing:
             stage = "flag_singularities"
             f.flag_singularities()
+            if twice:
+                stage = "flag_singularities (second time)"
+                f.flag_singularities()
     except Exception as e:  # noqa
         r.err = (stage, _exc_name(e), str(e)[:200])
     finally:
@@ -369,8 +500,8 @@ def _flags(case, d):
 
 def model_request(case):
     r = _run(case)
-    if r.err:
-        return None
+    if r.err or case.get("build") == "f32":
+        return None      # f32: the comparison tolerances of the correspondence (1e-9) assume double-precision geometry
     d = r.data = _impl_data(case, r)
     faces = case["elem"] == "faces"
     t = ["ff", "f" if faces else "v", str(case["order"]), str(d["n"])]
@@ -670,6 +801,9 @@ def oracle(case):
     sides, und, border, bverts, chi = _topology(V, F)
     closed = not border
     tagc = "closed" if closed else "bordered"
+    # single-precision coordinates: the library's geometry (bases, angles) is only accurate to float32 round-off; the
+    # geometric tolerances of the clauses are widened accordingly (unit modulus and the solve stay in double precision)
+    ts = 1e4 if case.get("build") == "f32" else 1.0
     if r.err:
         stage, name, msg = r.err
         nf = "1face" if len(F) == 1 else "n"
@@ -730,13 +864,13 @@ def oracle(case):
             pa, pb, pc = (_np(V[t]) for t in fc)
             N = np.cross(pb - pa, pc - pa); N /= np.linalg.norm(N)
             X, Y = (_np(t) for t in f.conn.base(fi))
-            if abs(X @ N) > 1e-9 or abs(Y @ N) > 1e-9 or abs(X @ Y) > 1e-9 or abs(X @ X - 1) > 1e-9 or abs(Y @ Y - 1) > 1e-9 or np.cross(X, Y) @ N < 0.5:
+            if abs(X @ N) > 1e-9 * ts or abs(Y @ N) > 1e-9 * ts or abs(X @ Y) > 1e-9 * ts or abs(X @ X - 1) > 1e-9 * ts or abs(Y @ Y - 1) > 1e-9 * ts or np.cross(X, Y) @ N < 0.5:
                 out.append(_F("C18/faces/basis/not-orthonormal-tangent", "local basis of a face is not a direct orthonormal basis of its plane", f"face {fi}")); break
             th = cmath.phase(complex(var[fi]))
             best = min(np.linalg.norm(np.cross(math.cos((th + TWO_PI * k) / order) * X + math.sin((th + TWO_PI * k) / order) * Y, Eh)) for k in range(order))
             ea, eb = min(a, b), max(a, b)
             if (a, b) != (ea, eb): n_against += 1
-            if best > 1e-7:
+            if best > 1e-7 * ts:
                 par = "odd" if order % 2 else "even"
                 out.append(_F(f"C18/faces/tangent/order-{par}", "no branch of the frame is tangent to the single feature edge of a face",
                               f"face {fi} edge {(a, b)} order {order}: sin(angle)={best:.3e}")); break
@@ -750,11 +884,11 @@ def oracle(case):
         for v, s in sorted(flagged.items()):
             if v in bverts: continue
             kq = s / q
-            if abs(kq - round(kq)) > 1e-6 or round(kq) == 0:
+            if abs(kq - round(kq)) > 1e-6 * ts or round(kq) == 0:
                 out.append(_F(f"C18/faces/index/not-multiple/{tagc}", "index flagged at an interior vertex is not a whole non-zero multiple of 4/order",
                               f"vertex {v} index {s} order {order}")); break
         tot = sum(flagged.values())
-        slack = (len(V) - len(flagged)) * _consts()[0] * 2 / math.pi + 1e-6
+        slack = (len(V) - len(flagged)) * _consts()[0] * 2 / math.pi + 1e-6 * ts
         if abs(tot - 4 * chi) > slack:
             out.append(_F(f"C18/faces/index/sum/{tagc}", "flagged indices do not add up to 4 * Euler characteristic",
                           f"sum {tot} chi {chi} (unflagged slack {slack:.2e})"))
@@ -776,7 +910,7 @@ def oracle(case):
         for fi, fc in enumerate(F):
             ang = sum(rot[(fc[i], fc[(i + 1) % 3])] for i in range(3)) + float(Kc[fi])
             kq = ang / (TWO_PI / order)
-            if abs(kq - round(kq)) > 1e-6:
+            if abs(kq - round(kq)) > 1e-6 * ts:
                 out.append(_F(f"C18/vertices/index/not-multiple/{tagc}", "holonomy + curvature of a face is not a whole multiple of 2*pi/order",
                               f"face {fi}: angle {ang} order {order}")); break
             if abs(abs(ang) - vthr) < 1e-9: continue
@@ -809,7 +943,7 @@ def oracle(case):
             a1 = math.atan2(Y1 @ E, X1 @ E); a2 = math.atan2(Y2 @ E, X2 @ E)
             w = float(Dg[ie]) if case["cotan"] else 1.0
             if abs(w) < 1e-9 * sc: continue
-            if abs(L[T1, T2] / (-w) - cmath.rect(1, order * (a1 - a2))) > 1e-7:
+            if abs(L[T1, T2] / (-w) - cmath.rect(1, order * (a1 - a2))) > 1e-7 * ts:
                 out.append(_F("C18/operator/faces/transport-phase", "off-diagonal phase of the connection Laplacian is not the parallel transport of the shared edge",
                               f"edge {ie} faces {T1},{T2}: {L[T1, T2] / (-w)} vs {cmath.rect(1, order * (a1 - a2))}")); break
     if elem == "vertices" and L.size:
@@ -848,7 +982,9 @@ def oracle(case):
         free = [i for i, b in enumerate(mask) if not b]
         fixed = [i for i, b in enumerate(mask) if b]
         LII = L[np.ix_(free, free)]; LIB = L[np.ix_(free, fixed)]
-        rhs = -LIB @ var[fixed]
+        # boundary data = the constrained frames, i.e. the constraints written by initialize() (equal to the final values of the
+        # constrained elements whenever these are unit and untouched, which clause (2) checks separately)
+        rhs = -LIB @ r.var_init[fixed]
         try:
             cond = np.linalg.cond(LII)
         except Exception:  # noqa
@@ -875,9 +1011,132 @@ def oracle(case):
                                   f"residual {float(np.max(np.abs(res))):.3e} bound {bound:.3e}"))
             r.harm_checked = True
 
+    # (7) round 3: histories on one object / one mesh, representation of the input, custom feature detector
+    if "hist" in case:
+        out += _history(case, r)
+
     # (6) metamorphic: numbering / face rotation independence on bordered surfaces
     if "meta" in case and not closed:
         out += _metamorphic(case, r, feat_pairs)
+    return out
+
+
+def _snap(r, elem):
+    """by-value snapshot of what a caller can read after run() + flag_singularities()"""
+    import numpy as np
+    cont = r.m.vertices if elem == "faces" else r.m.faces
+    sg = cont.get_attribute("singuls") if cont.has_attribute("singuls") else {}
+    er = r.m.edges.get_attribute("angles") if r.m.edges.has_attribute("angles") else None
+    return {"var": np.array(r.var, dtype=complex).copy(), "sing": {int(k): float(sg[k]) for k in sg},
+            "rot": [float(er[i]) for i in range(len(r.m.edges))] if er is not None else []}
+
+
+def _cmp_snap(a, b, tol, near_tie_ok=True):
+    """differences between two snapshots: list of (what, detail)"""
+    import numpy as np
+    out = []
+    if a["var"].shape != b["var"].shape:
+        return [("field-differs", f"shapes {a['var'].shape} vs {b['var'].shape}")]
+    d = float(np.max(np.abs(a["var"] - b["var"]))) if a["var"].size else 0.0
+    if not d <= tol:
+        out.append(("field-differs", f"max |Δ var| = {d:.3e} (tolerance {tol:.0e})"))
+        return out
+    ka, kb = set(a["sing"]), set(b["sing"])
+    if ka != kb:
+        # a flag may legitimately flip when a holonomy sits on the threshold / a matching tie: only whole stale or missing
+        # entries whose rotations agree are reported
+        rot_same = len(a["rot"]) == len(b["rot"]) and all(abs(x - y) <= 1e-6 for x, y in zip(a["rot"], b["rot"]))
+        if rot_same:
+            out.append(("singularities-differ", f"flagged only in the used-object run: {sorted(ka - kb)[:5]}, only in the fresh run: {sorted(kb - ka)[:5]}"))
+    else:
+        bad = [k for k in ka if abs(a["sing"][k] - b["sing"][k]) > 1e-6]
+        rot_same = len(a["rot"]) == len(b["rot"]) and all(abs(x - y) <= 1e-6 for x, y in zip(a["rot"], b["rot"]))
+        if bad and rot_same:
+            out.append(("singularities-differ", f"index at {bad[:5]}: {[a['sing'][k] for k in bad[:5]]} vs {[b['sing'][k] for k in bad[:5]]}"))
+    return out
+
+
+def _history(case, r):
+    """The statement holds for every call: the n-th use of an object / of a mesh must give what the first use of a fresh one gives
+    (compared BY VALUE), whatever representation of the same coordinates is handed in, and with an equivalent feature detector
+    passed explicitly."""
+    import numpy as np
+    out = []
+    h = case["hist"]
+    kind, elem = h["kind"], case["elem"]
+    V, F = case["V"], case["F"]
+    alpha = 0.37 if case["n_smooth"] > 0 else None      # prescribed attach weight: the ARPACK estimate is a listed finding of its own
+    ref = r if alpha is None and kind != "repr" else _run_once(case, V, F, alpha=alpha, build=None)
+    if ref.err:
+        return out
+    sref = _snap(ref, elem)
+    tol = 1e-8
+
+    def report(what, detail, variant):
+        out.append(_F(f"C18/history/{variant}/{elem}/{what}",
+                      f"{variant}: the result on a used object / mesh / other input representation differs from the result of a fresh run ({what})", detail))
+    if kind == "rerun":
+        r2 = _run_once(case, V, F, alpha=alpha, twice=True)
+        if r2.err: report("raises", str(r2.err), "rerun"); return out
+        if float(np.max(np.abs(r2.var_second - r2.var))) > 0:
+            report("field-differs", "a second run() on a field that is already computed changed it", "rerun")
+        for what, det in _cmp_snap(_snap(r2, elem), sref, tol): report(what, det, "rerun")
+    elif kind == "call":
+        r2 = _run_once(case, V, F, alpha=alpha, via_call=True)
+        if r2.err: report("raises", str(r2.err), "call-after-initialize"); return out
+        if len(r2.captured) != len(ref.captured):
+            report("field-differs", f"run() after initialize() performed {len(r2.captured)} normalisations instead of {len(ref.captured)}", "call-after-initialize")
+        for what, det in _cmp_snap(_snap(r2, elem), sref, tol): report(what, det, "call-after-initialize")
+    elif kind == "two-fields":
+        first = dict(case, **h["first"]); first.pop("hist", None); first.pop("meta", None)
+        m = _build(V, F, case.get("build"))
+        det1 = None
+        if h.get("custom_both"):
+            from mouette.processing import FeatureEdgeDetector
+            kw1 = {"corner_order": first["order"]} if first["elem"] == "vertices" else {}
+            det1 = FeatureEdgeDetector(only_border=not first["features"], verbose=False, **kw1)(m)
+        r1 = _run_once(first, V, F, mesh=m, detector=det1)
+        if r1.err:
+            return out                  # the first field's own failure is reported by the case that runs it alone
+        v1 = np.array(r1.f.var, dtype=complex).copy()
+        det = None
+        if h.get("reuse_detector") and first["features"] == case["features"] and (elem == "faces" and first["elem"] == "faces" or first["order"] == case["order"] and first["elem"] == elem):
+            det = r1.f.feat
+        if det is None and h.get("custom_both"):
+            from mouette.processing import FeatureEdgeDetector
+            kw2 = {"corner_order": case["order"]} if elem == "vertices" else {}
+            det = FeatureEdgeDetector(only_border=not case["features"], verbose=False, **kw2)(m)
+        r2 = _run_once(case, V, F, alpha=alpha, mesh=m, detector=det)
+        variant = "two-fields" + ("+detector" if det is not None else "")
+        if r2.err: report("raises", str(r2.err), variant); return out
+        for what, det_ in _cmp_snap(_snap(r2, elem), sref, tol): report(what, det_, variant)
+        if float(np.max(np.abs(np.array(r1.f.var, dtype=complex) - v1))) > 0:
+            report("first-field-changed", "computing a second field on the mesh changed the values of the first field object", variant)
+    elif kind == "interleaved":
+        o = h["other"]
+        oc = {k_: v_ for k_, v_ in o.items()}
+
+        def between():
+            ro = _run_once(oc, oc["V"], oc["F"])          # a complete other field (construction, run, flags) on ANOTHER mesh
+        r2 = _run_once(case, V, F, alpha=alpha, between=between)
+        if r2.err: report("raises", str(r2.err), "interleaved"); return out
+        for what, det_ in _cmp_snap(_snap(r2, elem), sref, tol): report(what, det_, "interleaved")
+    elif kind == "custom-features":
+        from mouette.processing import FeatureEdgeDetector
+        m = _build(V, F, case.get("build"))
+        kw = {"corner_order": case["order"]} if elem == "vertices" else {}
+        det = FeatureEdgeDetector(only_border=not case["features"], verbose=False, **kw)(m)
+        r2 = _run_once(case, V, F, alpha=alpha, mesh=m, detector=det)
+        if r2.err: report("raises", str(r2.err), "custom-features"); return out
+        for what, det_ in _cmp_snap(_snap(r2, elem), sref, tol): report(what, det_, "custom-features")
+    elif kind == "repr":
+        b = case.get("build")
+        r2 = r if alpha is None else _run_once(case, V, F, alpha=alpha)
+        if r2.err: return out
+        tolr = 1e-3 if b == "f32" else 1e-8
+        for what, det_ in _cmp_snap(_snap(r2, elem), sref, tolr):
+            if b == "f32" and what != "field-differs": continue      # single precision may move a holonomy across a tie
+            out.append(_F(f"C18/repr/{b}/{elem}/{what}", f"the same surface given with {b} coordinates yields a different result than with float64 coordinates ({what})", det_))
     return out
 
 
@@ -1001,6 +1260,8 @@ def classify(case, obs):
     r = _run(case)
     ks = [f"fam:{case['fam']}", f"elem:{case['elem']}", f"order:{case['order']}", f"features:{int(case['features'])}",
           f"n_smooth:{case['n_smooth']}", f"cotan:{int(case['cotan'])}", f"faces<={(len(case['F']) // 20 + 1) * 20}"]
+    if "hist" in case: ks.append("history:" + case["hist"]["kind"])
+    if case.get("build"): ks.append("coordinates:" + case["build"])
     if r.err:
         return ks + [f"err:{r.err[1]}"]
     mask = _fixed_mask(case, r)
@@ -1021,6 +1282,7 @@ def describe(case):
     return {k: (v if k not in ("V", "F", "meta") else f"<{len(v)}>") for k, v in case.items()}
 
 
+
 def shrink(case, still):
     """configuration shrinking only (the surface is kept): drop the metamorphic copy, smoothing, features"""
     cur = dict(case)
@@ -1031,11 +1293,14 @@ def shrink(case, still):
     if "meta" in cur:
         t = {k: v for k, v in cur.items() if k != "meta"}
         if still(t): cur = t
+    if "hist" in cur:
+        t = {k: v for k, v in cur.items() if k not in ("hist", "build")}
+        if still(t): cur = t
     return cur
 
 
 def translate():
-    return TR.run() + TRV.run()
+    return TR.run() + TRV.run() + TRH.run()
 
 
 MANIFEST = {
